@@ -45,6 +45,7 @@ type Addr struct {
 	ElemT  types.Type
 	CompLo int
 	CompN  int
+	Final  string // AGlobal: the decimal value of an effectively constant package-level integer variable
 }
 
 type Val struct {
